@@ -166,3 +166,32 @@ def Inv (reapplies : Nat → Bool) (s : St) : Prop :=
   (∀ e ∈ s.pool, reapplies e.1 = false → e.2.baked = e.1)
 
 end KV.Model.CfgPool
+
+/-!
+## Wrappers around library objects (gzip, lz4, zstd)
+
+compress/{gzip,lz4,zstd} only pool and `Reset` objects of third-party libraries.  `Lib` abstracts such an object:
+its state, `fresh cfg`, `reset` and `run` (one whole stream: all Write/Read calls up to Close/EOF, the result may be
+an error).  `ResetContract` is what the wrappers rely on — documented by the libraries, not verified here: a reset
+object behaves like a fresh one of its configuration, whatever it processed before, also after a failed stream.
+-/
+namespace KV.Model.LibWrapper
+
+structure Lib (σ ι ω : Type) where
+  fresh : Nat → σ
+  reset : σ → σ
+  run : σ → ι → ω × σ
+
+structure ResetContract {σ ι ω : Type} (L : Lib σ ι ω) (cfgOf : σ → Nat) : Prop where
+  cfg_fresh : ∀ c, cfgOf (L.fresh c) = c
+  cfg_reset : ∀ s, cfgOf (L.reset s) = cfgOf s
+  cfg_run : ∀ s i, cfgOf (L.run s i).2 = cfgOf s
+  reset_fresh : ∀ s i, (L.run (L.reset s) i).1 = (L.run (L.fresh (cfgOf s)) i).1
+
+/-- one use of a pooled object by a wrapper: `NewWriter/NewReader` (Reset), the stream, `Close` (Reset), Put -/
+def useOnce {σ ι ω : Type} (L : Lib σ ι ω) (s : σ) (i : ι) : σ := L.reset (L.run (L.reset s) i).2
+
+/-- the object after a history of streams -/
+def after {σ ι ω : Type} (L : Lib σ ι ω) (s : σ) (history : List ι) : σ := history.foldl (useOnce L) s
+
+end KV.Model.LibWrapper
